@@ -529,13 +529,13 @@ impl SubCheck for Policy {
         "policy/real-proofs".into()
     }
     fn cases(&self, tier: Tier) -> u64 {
-        tier.pick(3_000, 40_000)
+        tier.pick(2_400, 30_000)
     }
     fn watchdog_secs(&self) -> u64 {
         60
     }
     fn rule(&self) -> String {
-        "honest proofs of a 2-column Fibonacci AIR: field x hash from {f62: blake3_256, blake3_192, rp62_248; f64: blake3_256, sha3_256, rp64_256; f128: blake3_256, blake3_192, sha3_256}, extension degree among the supported ones, trace 2^3..2^6, blowup 2..32, queries 1..64 (< LDE size), grinding 0..10, FRI folding 2..16 / remainder 0..255 restricted to well-formed schedules; each proof is verified under MinConjecturedSecurity(s) and MinProvenSecurity(s) for s in {level-1, level, level+1, 0, u32::MAX}, under OptionSets containing / not containing its options (each single-field deviation), and with its context re-issued for each other field's modulus; non-trivial = the honest proof verifies under a policy that admits it (so every refusal observed is the policy's); distinct by whole case".into()
+        "honest proofs of a 2-column Fibonacci AIR: field x hash from {f62: blake3_256, blake3_192, rp62_248; f64: blake3_256, sha3_256, rp64_256; f128: blake3_256, blake3_192, sha3_256}, extension degree among the supported ones, trace 2^3..2^6, blowup 2..32, queries 1..64 (< LDE size), grinding 0..10, FRI folding 2..16 / remainder 0..255 restricted to well-formed schedules; each proof is verified under MinConjecturedSecurity(s) and MinProvenSecurity(s) for s in {level-1, level, level+1, 0, u32::MAX}, under OptionSets containing / not containing its options (each single-field deviation), and with its context re-issued for another field's modulus and for five byte strings that are no field of the library (own modulus +2 / high bit flipped / one byte longer / one byte shorter, the one-byte modulus 3) under minimum-0, minimum-level and option-set policies: never Ok; non-trivial = the honest proof verifies under a policy that admits it (so every refusal observed is the policy's); distinct by whole case".into()
     }
     fn required_labels(&self, _t: Tier) -> Vec<String> {
         vec![
